@@ -183,7 +183,8 @@ func randomSpec(r *rand.Rand, flavour string, want map[string]bool) WorldSpec {
 		opts = append(opts, Opt{Name: name, S: first, L: rest})
 	}
 	if want["refresh"] || r.Intn(4) != 0 {
-		opts = append(opts, Opt{Name: "WithRefreshTokenGrant", Z: pick(r, []int{200, 400, 1000})})
+		opts = append(opts, Opt{Name: "WithRefreshTokenGrant", Z: pick(r, []int{200, 400, 1000}),
+			S: pick(r, []string{"", "", "", "IssueIfOffline", "IssueCodeOnly"})})
 		if r.Intn(2) == 0 {
 			opts = append(opts, Opt{Name: "WithRefreshTokenRotation"})
 		}
